@@ -660,12 +660,17 @@ func expName(c *Case, i int) string {
 
 func judgeSync(c *Case, errs *errSet, o *prodObs, ref *refOut) (vs []viol, class string) {
 	var cls []byte
-	lastOff, lastOffMsg := int64(0), -1
+	// every offset handed to a message whose expectation was a success (return value of SendMessage,
+	// msg.Offset for the accepted messages of a SendMessages call, also the ones in front of the
+	// first failure of a batch) must exceed every offset handed out before, across all calls
+	maxOff, maxOffMsg := int64(0), -1
 	offset := func(i int, off int64) {
-		if lastOffMsg >= 0 && off <= lastOff {
-			vs = append(vs, viol{"sync-offsets-not-increasing", fmt.Sprintf("message %d succeeded with offset %d after message %d got offset %d", i, off, lastOffMsg, lastOff)})
+		if maxOffMsg >= 0 && off <= maxOff {
+			vs = append(vs, viol{"sync-offsets-not-increasing", fmt.Sprintf("message %d succeeded with offset %d although message %d had already been given offset %d", i, off, maxOffMsg, maxOff)})
 		}
-		lastOff, lastOffMsg = off, i
+		if maxOffMsg < 0 || off > maxOff {
+			maxOff, maxOffMsg = off, i
+		}
 	}
 	if len(o.Calls) != len(ref.calls) {
 		return []viol{{"sync-run-incomplete", fmt.Sprintf("%d of %d calls returned", len(o.Calls), len(ref.calls))}}, "incomplete"
@@ -751,4 +756,27 @@ func judgeSync(c *Case, errs *errSet, o *prodObs, ref *refOut) (vs []viol, class
 	vs = append(vs, judgeCheckers("sync", c, o, ref)...)
 	vs = append(vs, compareReports("sync", o.Reports, ref.reports, ref.opt)...)
 	return vs, string(cls) + "|" + fmtCounts(categories(o.Reports))
+}
+
+// syncFeatures names structural patterns of a sync case (coverage accounting: the enumeration must
+// contain them).
+func syncFeatures(ref *refOut) []string {
+	var fs []string
+	pending := false // a batch failed at position >= 1 after at least one accepted message
+	hit := false
+	for _, cl := range ref.calls {
+		if pending && !cl.insufficient && cl.size > 0 && ref.wants[cl.start].kind == 'S' {
+			hit = true
+		}
+		if cl.batch && !cl.insufficient && cl.err != nil && cl.size > 1 && ref.wants[cl.start].kind == 'S' {
+			pending = true
+		}
+	}
+	if pending {
+		fs = append(fs, "sendmessages-fails-after-accepted-prefix")
+	}
+	if hit {
+		fs = append(fs, "sendmessages-fails-after-accepted-prefix-then-later-successful-send")
+	}
+	return fs
 }
